@@ -2,25 +2,34 @@
 (* Model-checking instance of Builder: the field is the integers mod P,    *)
 (* every call sequence of at most MaxCalls calls followed by build.        *)
 EXTENDS Builder
-CONSTANTS P, MaxCalls, Consts, MaxBits, MaxPi
-VARIABLE n
+CONSTANTS P, MaxCalls, Consts, MaxBits, MaxPi, WithExt, ExtConsts
+VARIABLES n, etg
 AddM(a, b) == (a + b) % P
 MulM(a, b) == (a * b) % P
 LessM(a, b) == a < b
 Field == 0..(P - 1)
 Tg == {V(i) : i \in 0..(nvirt - 1)} \cup {t \in DOMAIN tval : t[1] = "w"}
-MCInit == Init /\ n = 0
-Call == \/ \E v \in InputVals : Virt(v)
-        \/ \E c \in Consts : Const(c)
-        \/ \E c0 \in Consts, c1 \in Consts : \E x \in Tg, y \in Tg, z \in Tg : Arith(c0, c1, x, y, z)
-        \/ \E b \in 1..MaxBits : \E v \in InputVals : RandomAccess(b, v)
-        \/ \E k \in {"noop", "const"} : AddRow(k)
+ExtConstsDef == {<<0, 0>>, <<1, 0>>, <<2, 0>>, <<0, 1>>, <<3, 1>>}
+ExtConstsSmall == {<<1, 0>>, <<2, 0>>, <<0, 1>>}
+ETg == etg \cup {<<V(i), V(j)>> : i \in 0..(nvirt - 1), j \in 0..(nvirt - 1)}
+MCInit == Init /\ n = 0 /\ etg = {}
+BaseCall == \/ \E v \in InputVals : Virt(v)
+            \/ \E c \in Consts : Const(c)
+            \/ \E c0 \in Consts, c1 \in Consts : \E x \in Tg, y \in Tg, z \in Tg : Arith(c0, c1, x, y, z)
+            \/ \E b \in 1..MaxBits : \E v \in InputVals : RandomAccess(b, v)
+            \/ \E k \in {"noop", "const"} : AddRow(k)
+ExtCall == \/ \E v \in InputVals : Virt(v)
+           \/ \E e \in ExtConsts : ConstExt(e)
+           \/ \E c0 \in Consts, c1 \in Consts : \E X \in ETg, Y \in ETg, Z \in ETg : ArithExt(c0, c1, X, Y, Z)
+Call == IF WithExt THEN ExtCall /\ etg' = (IF last'.ev \in {"constext", "arithext"} THEN etg \cup {last'.res} ELSE etg)
+        ELSE BaseCall /\ etg' = etg
 MCNext == \/ n < MaxCalls /\ Call /\ n' = n + 1
-          \/ \E npi \in 0..MaxPi : Build(npi) /\ n' = n
-MCSpec == MCInit /\ [][MCNext]_<<vars, n>>
+          \/ \E npi \in 0..MaxPi : Build(npi) /\ n' = n /\ etg' = etg
+MCSpec == MCInit /\ [][MCNext]_<<vars, n, etg>>
 \* the canary for vacuity: every path of arithmetic is reachable
-PathsSeen == last.ev = "arith" => last.path \in {"fold", "addend", "m0", "m1", "cache", "slot"}
-NeverPath(p) == ~(last.ev = "arith" /\ last.path = p)
+NeverPath(p) == ~(last.ev \in {"arith", "arithext"} /\ last.path = p)
+NoMulSlot == NeverPath("mulslot")
+NoSlot == NeverPath("slot")
 NoFold == NeverPath("fold")
 NoAddend == NeverPath("addend")
 NoM0 == NeverPath("m0")
